@@ -5,7 +5,9 @@ use crate::common::*;
 use serde_json::json;
 use std::process::Command;
 
-const OPS: [&str; 11] = ["read-view", "mut-view", "array-view", "index", "resize", "clone", "lock", "unlock", "read-only", "read-write", "no-access"];
+const NOPS: usize = 17;
+#[allow(dead_code)]
+const OPS: [&str; NOPS] = ["read-view", "mut-view", "array-view", "index", "resize", "clone", "lock", "unlock", "read-only", "read-write", "no-access", "mut-array-view", "deref-mut", "as-ref", "as-mut", "as-ref-array", "as-mut-array"];
 
 fn snippet(op: usize) -> &'static str {
     match op {
@@ -19,13 +21,19 @@ fn snippet(op: usize) -> &'static str {
         7 => "let _q = p.munlock();",
         8 => "let _q = p.mprotect_readonly();",
         9 => "let _q = p.mprotect_readwrite();",
-        _ => "let _q = p.mprotect_noaccess();",
+        10 => "let _q = p.mprotect_noaccess();",
+        11 => "let mut p = p; p.as_mut_array()[0] = 1;",
+        12 => "let mut p = p; let s: &mut [u8] = &mut *p; s[0] = 1;",
+        13 => "let s: &[u8] = p.as_ref(); let _ = s.len();",
+        14 => "let mut p = p; let s: &mut [u8] = p.as_mut(); s[0] = 1;",
+        15 => "let s: &[u8; 32] = p.as_ref(); let _ = s.len();",
+        _ => "let mut p = p; let s: &mut [u8; 32] = p.as_mut(); s[0] = 1;",
     }
 }
 
 /// the table the property states (container 1 = HeapBytes, 2 = HeapByteArray<32>)
 fn permitted(c: usize, pm: usize, lm: usize, op: usize) -> bool {
-    match op { 0 | 3 => pm != 2, 1 => pm == 0, 2 => c == 2 && pm != 2, 4 => c == 1 && pm == 0, 5 => pm != 2 && (lm == 0 || c == 1), 6 => lm == 0, 7 => true, 8 | 9 => true, _ => lm == 0 }
+    match op { 0 | 3 => pm != 2, 1 => pm == 0, 2 => c == 2 && pm != 2, 4 => c == 1 && pm == 0, 5 => pm != 2 && (lm == 0 || c == 1), 6 => lm == 0, 7 => true, 8 | 9 => true, 10 => lm == 0, 11 | 16 => c == 2 && pm == 0, 12 | 14 => pm == 0, 13 => pm != 2, _ => false }
 }
 
 fn program(c: usize, pm: usize, lm: usize, body: &str) -> String {
@@ -63,7 +71,7 @@ pub fn run(out: &mut Out, _tier: &str, _seed: u64) {
     std::fs::create_dir_all(&dir).unwrap();
     // build the job list
     let mut jobs: Vec<(String, String, String, bool)> = vec![]; // (name, source, op token args, expected permitted)
-    for c in 1..=2usize { for pm in 0..3usize { for lm in 0..2usize { for op in 0..11usize {
+    for c in 1..=2usize { for pm in 0..3usize { for lm in 0..2usize { for op in 0..NOPS {
         jobs.push((format!("cell_{}_{}_{}_{}", c, pm, lm, op), program(c, pm, lm, snippet(op)), format!("{} {} {} {}", c, pm, lm, op), permitted(c, pm, lm, op)));
     } } } }
     // use after a transition consumed the region (every state): must not compile
